@@ -24,3 +24,20 @@ void h_pentagon_faces(void) {
                      out[1] != out[4] && out[2] != out[3] && out[2] != out[4] && out[3] != out[4], "the five faces of a pentagon are distinct");
     __CPROVER_assert(0, "canary pentagon faces");
 }
+
+/* the same clause by COMPLETE ENUMERATION: all 12 x 16 pentagons, concrete inputs (symbolic execution folds every branch), real function
+ * with all its real callees */
+void h_pentagon_faces_enum(void) {
+    for (int p = 0; p < 12; p++) {
+        for (int res = 0; res <= 15; res++) {
+            H3Index h = S_CELL0(res, S_PENT_I(p));
+            int out[5] = {-7, -7, -7, -7, -7};
+            H3Error e = getIcosahedronFaces(h, out);
+            __CPROVER_assert(e == 0, "getIcosahedronFaces succeeds on every pentagon");
+            int ok = 1;
+            for (int i = 0; i < 5; i++) { if (out[i] < 0 || out[i] > 19) ok = 0; for (int j = 0; j < i; j++) if (out[i] == out[j]) ok = 0; }
+            __CPROVER_assert(ok, "a pentagon reports five distinct faces in 0..19");
+        }
+    }
+    __CPROVER_assert(0, "canary pentagon faces enum");
+}
